@@ -617,20 +617,16 @@ impl<'cmd> Parser<'cmd> {
     fn possible_long_flag_subcommand(&self, arg: &str) -> Option<&str> {
         debug!("Parser::possible_long_flag_subcommand: arg={arg:?}");
         if self.cmd.is_infer_subcommands_set() {
+            // A subcommand may only have long flag aliases, those take part as well
             let mut iter = self.cmd.get_subcommands().filter_map(|sc| {
-                sc.get_long_flag().and_then(|long| {
-                    if long.starts_with(arg) {
-                        Some(sc.get_name())
-                    } else {
-                        sc.get_all_long_flag_aliases().find_map(|alias| {
-                            if alias.starts_with(arg) {
-                                Some(sc.get_name())
-                            } else {
-                                None
-                            }
-                        })
-                    }
-                })
+                let matches_long = sc
+                    .get_long_flag()
+                    .map(|long| long.starts_with(arg))
+                    .unwrap_or(false);
+                let matches_alias = sc
+                    .get_all_long_flag_aliases()
+                    .any(|alias| alias.starts_with(arg));
+                (matches_long || matches_alias).then(|| sc.get_name())
             });
 
             if let name @ Some(_) = iter.next() {
